@@ -1,3 +1,4 @@
 SPECIFICATION SpecWipe
+CONSTANT Key = {"k1", "k2"}
 INVARIANTS KeysIndependent
 CHECK_DEADLOCK FALSE
